@@ -15,6 +15,7 @@ corpus/C04/witnesses.txt for the correspondence check.
 import ArvVerif.Proofs.C04_Trash
 import ArvVerif.Proofs.C04_HistGood
 import ArvVerif.Proofs.C04_Race
+import ArvVerif.Proofs.C04_Compose
 namespace ArvVerif.C04
 
 /-! ## (a) histories -/
@@ -308,5 +309,45 @@ example : Race.finished (Race.run ([true, false, false] ++ Race.drain) (Race.ini
 example : Acked (Race.run ([true, false, false] ++ Race.drain) (Race.init uCfg)) := Or.inl (by decide +kernel)
 example : (Race.run ([true, false, false] ++ Race.drain) (Race.init uCfg)).blk = some .x := by decide +kernel
 example : (Race.run ([true, false, false] ++ Race.drain) (Race.init uCfg)).resT = .restored := by decide +kernel
+
+/-! ## (e) the two layers composed
+
+The interleaving layer abstracts time to "younger than the TTL or not" and the server to one block path;
+the history layer has real timestamps but runs requests one after the other. `Model/C04_Compose.lean`
+builds, for a race configuration `c` and times `τ`, the history-layer instance of the same situation and
+defines what an observer sees at quiescence in both layers (`Obs`: both responses, the file at the block
+path with intact? / younger-than-TTL?, the trashed copies of the hash). -/
+
+/-- On SEQUENTIAL executions the two layers agree: all of P then all of T (and vice versa) in the
+interleaving model ends exactly like the two-request history [P, T] ([T, P]) of the history model — for all
+times that fit the configuration (TTL > 0, lifetime > 0, the stored copy older than the TTL exactly when
+the configuration says so). This is the soundness of the fresh/old abstraction where the layers overlap. -/
+theorem C04_layers_agree_sequential (c : Race.Cfg) (τ : Compose.Times) (hfit : τ.fits c) :
+    Race.finished (Race.run Compose.schedPT (Race.init c)) = true ∧
+    Race.finished (Race.run Compose.schedTP (Race.init c)) = true ∧
+    Compose.obsR (Race.run Compose.schedPT (Race.init c)) = Compose.seqPT c τ ∧
+    Compose.obsR (Race.run Compose.schedTP (Race.init c)) = Compose.seqTP c τ :=
+  ⟨(Race.serial_finished c).1, (Race.serial_finished c).2, Race.serial_PT c τ hfit, Race.serial_TP c τ hfit⟩
+
+/-- Linearizability: EVERY interleaving of one PUT/TOUCH with one DELETE / trash-list item / untrash that
+lets both finish ends, for an observer, like one of the two sequential HISTORIES [P, T] or [T, P] of the
+history layer (to which `C04_history_protects` and the other history theorems apply) — all 144
+configurations, every schedule, all times that fit the configuration. -/
+theorem C04_race_linearizable (c : Race.Cfg) (sched : List Bool) (τ : Compose.Times) (hfit : τ.fits c)
+    (hfin : Race.finished (Race.run sched (Race.init c)) = true) :
+    Compose.obsR (Race.run sched (Race.init c)) = Compose.seqPT c τ ∨
+    Compose.obsR (Race.run sched (Race.init c)) = Compose.seqTP c τ := by
+  rw [Race.seqPT_lit c τ hfit, Race.seqTP_lit c τ hfit]
+  exact Race.lin_run c sched hfin
+
+/-! non-vacuity: the times of the correspondence check fit every configuration; on the former F4
+configuration the two histories end differently ([P,T]: DELETE keeps the new block; [T,P]: the old copy is
+in the trash), and the F4 schedule (Trash decides first, PUT finishes in between) ends like [T, P]. -/
+example (c : Race.Cfg) : (Compose.drvTimes c).fits c := Race.drvTimes_fits c
+example : Compose.seqPT f4Cfg (Compose.drvTimes f4Cfg) ≠ Compose.seqTP f4Cfg (Compose.drvTimes f4Cfg) := by decide
+example : Compose.obsR (Race.run (f4Sched ++ Race.drain) (Race.init f4Cfg)) = Compose.seqTP f4Cfg (Compose.drvTimes f4Cfg) := by
+  decide +kernel
+example : Compose.seqTP f4Cfg (Compose.drvTimes f4Cfg) =
+    { p := .code 200, t := .deleted 1 0, blk := some (true, true), trash := [false] } := by decide
 
 end ArvVerif.C04
